@@ -57,6 +57,9 @@ pub fn build_image(cfg: &HistCfg) -> Built {
     if cfg.force_two_fats {
         g1.nfats = 2;
     }
+    if cfg.prop == "C16" && g1.nfats > 2 {
+        g1.nfats = 2;
+    }
     if let Some(f) = &cfg.fsinfo {
         if g1.fat32 {
             g1.fsinfo = f.clone();
@@ -83,6 +86,9 @@ pub fn build_image(cfg: &HistCfg) -> Built {
     parts.push(g1.clone());
     if cfg.two_parts {
         let mut g2 = Geom::random(&mut rng, Some(false), 4);
+        if cfg.prop == "C16" && g2.nfats > 2 {
+            g2.nfats = 2;
+        }
         g2.part_start = g1.part_end() + 17;
         g2.part_slot = (g1.part_slot + 1 + rng.usize_below(3)) % 4;
         g2.neighbours = false;
